@@ -93,7 +93,7 @@ def gen_cases(chk, rng):
     g = Gen(rng)
     quick = chk.tier == "quick"
     lines = []
-    n = 8000 if quick else 80000
+    n = 8000 if quick else 30000
     for i in range(n):
         kind = ["dyn", "gau", "bin", "reg"][i % 4]
         team = rng.chance(0.45)
@@ -136,9 +136,8 @@ def gen_cases(chk, rng):
         for j in range(len(rows) - 1, 0, -1):
             k2 = rng.below(j + 1)
             rows[j], rows[k2] = rows[k2], rows[j]
-        nq = rng.between(1, 12)
         qs = []
-        for j in range(nq):
+        for j in range(rng.between(1, 12)):
             if rng.chance(0.3) and kind != "reg":
                 q = rows[rng.below(len(rows))]
                 qs.append((q[1], q[2]))
@@ -146,9 +145,14 @@ def gen_cases(chk, rng):
                 qs.append((g.dbl(rng.choice([4, 5, 6])), g.dbl(rng.choice([4, 5, 6]))))
             else:
                 qs.append(g.inputs(rng.below(7), rng.choice([0.0, 0.2])))
+        if kind != "reg" and rng.chance(0.04):
+            qs.append((float("nan"), 1.0))            # robustness probe (outside the property)
+            if rng.chance(0.5):
+                y0, _, b0 = rows[0]
+                rows[0] = (y0, float("nan"), b0)
         line = (f"{kind} {comp} {xslot} {prog} {rng.below(1 << 30)} {ntrain} " +
                 " ".join(f"{y} {tok(a)} {tok(b)}" for y, a, b in rows) +
-                f" {nq} " + " ".join(f"{tok(a)} {tok(b)}" for a, b in qs))
+                f" {len(qs)} " + " ".join(f"{tok(a)} {tok(b)}" for a, b in qs))
         lines.append(line)
     for v in [0.0, -0.0, 1.0, -1.0, 1e308, -1e308, 5e-324, 0.5, 1e7]:
         for mx in (1, 19, 169):
@@ -216,6 +220,148 @@ def cpp_canon(line, cpp):
     if p.kind != "reg":
         s += " fit " + p.fit
     return s
+
+
+# ---------------------------------------------------------------------------
+# reference implementation of the DOCUMENTED rules in plain Python doubles (independent of Lean):
+# used by the oracle so that a deviation comes with a concrete failing input
+# ---------------------------------------------------------------------------
+
+def fma(a, b, c):
+    """correctly rounded a*b+c (exact rational arithmetic, one rounding)"""
+    if not (math.isfinite(a) and math.isfinite(b) and math.isfinite(c)):
+        return a * b + c
+    return float(Fraction(a) * Fraction(b) + Fraction(c))
+
+
+def c_round(x):
+    """C's round(): half away from zero"""
+    if not math.isfinite(x):
+        return x
+    a = abs(x)
+    if a >= 4503599627370496.0:
+        return x
+    f = float(math.floor(a))
+    if a - f >= 0.5:          # exact: a and f are within one unit
+        f += 1.0
+    return math.copysign(f, x)
+
+
+def ref_disc(x, mx):
+    return int(c_round(fma(float(mx), fma(math.atan(x), 0.31830988618, 0.5), 0.0)))
+
+
+def ref_dyn_build(classes, xslot, train):
+    ns = classes * xslot
+    mat = [[0] * classes for _ in range(ns)]
+
+    def slot(o):
+        if o is None:
+            return ns - 1
+        w = ref_disc(o, ns - 1)
+        return ns - 1 if w >= ns else w
+    for o, l in train:
+        mat[slot(o)][l] += 1
+    cls = []
+    for row in mat:
+        best = 0
+        for j in range(1, classes):
+            if row[j] >= row[best]:
+                best = j
+        cls.append(best if row[best] else classes)
+    for i in range(ns):
+        if cls[i] == classes:
+            if i and cls[i - 1] != classes:
+                cls[i] = cls[i - 1]
+            elif i + 1 < ns and cls[i + 1] != classes:
+                cls[i] = cls[i + 1]
+            else:
+                cls[i] = 0
+
+    def tag(o):
+        s = slot(o)
+        total = sum(mat[s])
+        return cls[s], (0.5 if not total else mat[s][cls[s]] / total)
+    return tag
+
+
+def ref_gau_build(classes, train):
+    cnt = [0] * classes
+    mean = [0.0] * classes
+    m2 = [0.0] * classes
+    for o, l in train:
+        v = 0.0 if o is None else o
+        v = 1e7 if v > 1e7 else (-1e7 if v < -1e7 else v)
+        if not cnt[l]:
+            mean[l] = v
+        cnt[l] += 1
+        delta = v - mean[l]
+        mean[l] += delta / cnt[l]
+        t = delta * (v - mean[l])
+        m2[l] = m2[l] + t if cnt[l] > 1 else t
+
+    def tag(o):
+        x = 0.0 if o is None else o
+        val, sm, best = 0.0, 0.0, 0
+        for i in range(classes):
+            dist = abs(x - mean[i])
+            var = (m2[i] / cnt[i]) if cnt[i] else float("nan")
+            if abs(var) < EPS2:
+                p = 1.0 if abs(dist) < EPS2 else 0.0
+            else:
+                try:
+                    q = -dist * dist / var
+                except (OverflowError, ZeroDivisionError):
+                    q = float("nan")
+                try:
+                    p = math.exp(q)
+                except OverflowError:
+                    p = float("inf")
+            if p > val:
+                val, best = p, i
+            sm += p
+        return best, (val / sm if sm > 0.0 else 0.0)
+    return tag
+
+
+def ref_bin_tag(o):
+    v = 0.0 if o is None else o
+    return (1 if v > 0.0 else 0), abs(v)
+
+
+def ref_predict(p, mem):
+    """labels / confidences of all rows according to the documented rules"""
+    lab = [int(x) for x in p.labels]
+    taggers = []
+    for k in range(p.m):
+        train = list(zip(mem[k][:p.ntrain], lab))
+        if p.kind == "dyn":
+            taggers.append(ref_dyn_build(p.classes, p.xslot, train))
+        elif p.kind == "gau":
+            taggers.append(ref_gau_build(p.classes, train))
+        else:
+            taggers.append(ref_bin_tag)
+    res = []
+    for i in range(p.n):
+        tags = [taggers[k](mem[k][i]) for k in range(p.m)]
+        if p.comp == "-":
+            res.append(tags[0])
+        elif p.comp == "wta":
+            best = tags[0]
+            for tg in tags[1:]:
+                if tg[1] > best[1]:
+                    best = tg
+            res.append(best)
+        else:
+            votes = [0] * p.classes
+            for tg in tags:
+                votes[tg[0]] += 1
+            mx = 0
+            for j in range(1, p.classes):
+                if votes[j] > votes[mx]:
+                    mx = j
+            res.append((mx, votes[mx] / len(tags)))
+    return res
 
 
 def oracle(line, cpp):
@@ -290,6 +436,28 @@ def oracle(line, cpp):
     lab = [int(x) for x in p.labels]
     al = [int(p.ans[2 * i]) for i in range(p.n)]
     sure = [untok(p.ans[2 * i + 1]) for i in range(p.n)]
+    has_nan = any(x == "nan" for x in p.mem)
+    if has_nan:
+        # NaN inputs are outside the property's quantifier: robustness probe only (no crash,
+        # an existing class)
+        for i in range(p.n):
+            if al[i] >= p.classes:
+                bad.append((f"{p.kind} model names class {al[i]} but only {p.classes} classes exist (NaN input, row {i})",
+                            dict(tags, kind="label")))
+                break
+        return bad
+    try:
+        want = ref_predict(p, mem)
+    except (ValueError, OverflowError, ZeroDivisionError, IndexError) as e:   # reference failed: say so
+        want = None
+        bad.append((f"reference implementation failed: {e!r}", dict(tags, kind="reference")))
+    if want is not None:
+        for i in range(p.n):
+            wl, ws = want[i]
+            if wl != al[i] or not (abs(ws - sure[i]) <= 1e-9 * max(1.0, abs(ws)) or (ws != ws and sure[i] != sure[i])):
+                bad.append((f"{p.kind} model ({p.comp}) answers class {al[i]} / confidence {sure[i]!r} on row {i}; "
+                            f"the documented rule gives class {wl} / confidence {ws!r}", dict(tags, kind="rule")))
+                break
     for i in range(p.n):
         if al[i] >= p.classes:
             bad.append((f"{p.kind} model names class {al[i]} but only {p.classes} classes exist (row {i})",
@@ -399,7 +567,16 @@ def run(chk, replay=None):
         chk.cov["corpus_cases"] = len(lines)
         lines += gen_cases(chk, rng)
 
-    cpp, deaths = C.run_lines(exe, lines)
+    # batches keep the ASan quarantine of one harness process small; three of them run at a time
+    B = 1500
+    batches = [lines[k:k + B] for k in range(0, len(lines), B)]
+    import concurrent.futures as cf
+    with cf.ThreadPoolExecutor(3) as ex:
+        res = list(ex.map(lambda b: C.run_lines(exe, b), batches))
+    cpp, deaths = [], []
+    for k, (a, d) in enumerate(res):
+        cpp += a + ["skipped"] * (len(batches[k]) - len(a))
+        deaths += [(k * B + i, rc, se) for i, rc, se in d]
     for idx, rc, se in deaths:
         t = lines[idx].split()
         kind = "asan" if "AddressSanitizer" in se else "ubsan" if "runtime error" in se else "crash"
@@ -471,7 +648,7 @@ def run(chk, replay=None):
             chk.violation(what, {"line": small, "harness_answer": ans[:3000],
                                  "how": "echo '<line>' | build/asan/c08_model   (or check.py C08 --replay <this file>)"},
                           tags=tags)
-        if lean is not None and lean[i] is not None:
+        if lean is not None and lean[i] is not None and " nan" not in reqs[i]:
             want = cpp_canon(line, c)
             if lean[i].strip() != want.strip():
                 ndis += 1
